@@ -98,6 +98,36 @@ theorem C16_any_schedule (progs : List (List Text)) (σ : List Nat) (j : Nat) (t
   rw [solo_done todo [] [] _ hfin]
   simp
 
+/-- the same for savers of a lazily read workbook that still has a raw sheet: each starts from a private
+    copy of the loaded table (`make_buffer`), and ends with what a save alone produces from that table -/
+theorem C16_any_schedule_loaded (loaded : Table) (progs : List (List Text)) (σ : List Nat) (j : Nat) (todo : List Text)
+    (hj : progs[j]? = some todo) (hfin : todo.length + 1 ≤ count j σ) :
+    (runSched (progs.map (fun p => ({ todo := p, table := loaded } : Saver))) σ)[j]? =
+      some { todo := [], table := (internAll loaded todo).1, got := (internAll loaded todo).2,
+             dumped := some (internAll loaded todo).1 } := by
+  rw [runSched_get]
+  simp only [List.getElem?_map, hj, Option.map_some]
+  rw [solo_done todo loaded [] _ hfin]
+  simp
+
+/-- the loaded table stays in front, so the indices of the raw sheets (copied verbatim) keep their strings -/
+theorem C16_loaded_prefix (loaded : Table) (todo : List Text) (i : Nat) (x : Text) (hx : loaded[i]? = some x) :
+    (internAll loaded todo).1[i]? = some x := by
+  induction todo generalizing loaded with
+  | nil => simpa [internAll] using hx
+  | cons y ys ih =>
+    simp only [internAll]
+    apply ih
+    unfold intern
+    split
+    · exact hx
+    · simp only
+      rw [List.getElem?_append_left]
+      · exact hx
+      · rcases Nat.lt_or_ge i loaded.length with h | h
+        · exact h
+        · rw [List.getElem?_eq_none h] at hx; simp at hx
+
 /-- and what it wrote decodes to its own strings -/
 theorem C16_decodes (todo : List Text) (k : Nat) (x : Text) (hx : todo[k]? = some x) :
     ∃ i : Nat, (internAll [] todo).2[k]? = some i ∧ (internAll [] todo).1[i]? = some x :=
